@@ -31,8 +31,8 @@ def gen_case(rng, tier, k):
     bnet = common.g_compose(rng, extra_max=max(0, nmax - 4)) if rng.random() < 0.6 else common.g_mixed(rng, nmax=nmax, p_core=0.0)
     prefix = gen_ops(rng, rng.randint(0, 4), allow_skip=True, allow_unmodelled=False)
     qs = [[rng.randrange(64), rng.choice(["sets", "seeds-sets", "seeds-reclaim-sets", "seeds-pickle-sets", "sets-sets",
-                                           "rawcands-seeds-sets", "rawcands-sets"])]
-          for _ in range(rng.randint(1, 4))]
+                                           "rawcands-seeds-sets", "rawcands-sets", "rawcands-seeds-sets", "rawcands-sets"])]
+          for _ in range(rng.randint(2, 6))]
     return {"bnet": bnet, "ops": prefix, "queries": qs, "fallback": rng.random() < 0.7}
 
 
